@@ -2038,7 +2038,14 @@ class DiskObjectStore(PackBasedObjectStore):
         for base in os.listdir(self.path):
             if len(base) != 2:
                 continue
-            for rest in os.listdir(os.path.join(self.path, base)):
+            try:
+                entries = os.listdir(os.path.join(self.path, base))
+            except (FileNotFoundError, NotADirectoryError):
+                # Removed by a concurrent repack/prune since the outer
+                # listing (git removes empty fan-out directories), or not a
+                # fan-out directory at all.
+                continue
+            for rest in entries:
                 sha = os.fsencode(base + rest)
                 if not valid_hexsha(sha):
                     continue
